@@ -9,7 +9,7 @@ import Cellml.C10.RolesLemmas
 
 namespace Model
 
-variable {M₁ M₂ : RModel}
+variable {fn : Interp} {M₁ M₂ : RModel}
 
 theorem odeRhs_of_mem {M : RModel} (E : EqInv M.st) {e : Eqn} (he : e ∈ M.st.equations) {s t : Nat}
     (hl : lhsNode e.lhs = some (.deriv s t)) : odeRhs M s t = some (M.rhs e.tok) := by
@@ -85,8 +85,8 @@ theorem freeVar_sameSet (W₁ : WF M₁) (W₂ : WF M₂) (h : SameSet M₁ M₂
 
 /-- the denotation only reads the definition maps as functions -/
 theorem den_congr (h1 : isState M₁ = isState M₂) (h2 : varRhs M₁ = varRhs M₂) (h3 : odeRhs M₁ = odeRhs M₂)
-    (h4 : freeVar M₁ = freeVar M₂) (h5 : initOf M₁.st = initOf M₂.st) {i : Item} {q : Rat} (h : Den M₁ i q) :
-    Den M₂ i q := by
+    (h4 : freeVar M₁ = freeVar M₂) (h5 : initOf M₁.st = initOf M₂.st) {i : Item} {q : Rat} (h : Den fn M₁ i q) :
+    Den fn M₂ i q := by
   induction h with
   | state hs hi => exact Den.state (h1 ▸ hs) (h5 ▸ hi)
   | defn hs hr _ ih => exact Den.defn (h1 ▸ hs) (h2 ▸ hr) ih
@@ -96,8 +96,9 @@ theorem den_congr (h1 : isState M₁ = isState M₂) (h2 : varRhs M₁ = varRhs 
   | deriv ho _ ih => exact Den.deriv (h3 ▸ ho) ih
   | bin _ _ hab iha ihb => exact Den.bin iha ihb hab
   | pow _ hp ih => exact Den.pow ih hp
+  | opq hl _ hf ih => exact Den.opq hl ih hf
 
-theorem den_sameSet (W₁ : WF M₁) (W₂ : WF M₂) (h : SameSet M₁ M₂) (i : Item) (q : Rat) : Den M₁ i q ↔ Den M₂ i q :=
+theorem den_sameSet (W₁ : WF M₁) (W₂ : WF M₂) (h : SameSet M₁ M₂) (i : Item) (q : Rat) : Den fn M₁ i q ↔ Den fn M₂ i q :=
   ⟨den_congr (isState_sameSet W₁.inv.eq W₂.inv.eq h) (varRhs_sameSet W₁.inv.eq W₂.inv.eq h)
       (odeRhs_sameSet W₁.inv.eq W₂.inv.eq h) (freeVar_sameSet W₁ W₂ h) h.init,
    den_congr (isState_sameSet W₁.inv.eq W₂.inv.eq h).symm (varRhs_sameSet W₁.inv.eq W₂.inv.eq h).symm
@@ -170,21 +171,21 @@ theorem derivedQuantities_sameSet (W₁ : WF M₁) (W₂ : WF M₂) (h : SameSet
   exact pairwise_lt_inj W₁.inv.reg.orderInc a b hal hbl (by rw [h.order]; exact hkey)
 
 theorem getValue_sameSet (W₁ : WF M₁) (W₂ : WF M₂) (h : SameSet M₁ M₂) (v : Nat) (q : Rat) :
-    getValue M₁ v = .ok q ↔ getValue M₂ v = .ok q := by
-  have g1 := getValueFuel_good W₁ (M₁.st.live.length + 1) (Nat.lt_succ_self _) v
-  have g2 := getValueFuel_good W₂ (M₂.st.live.length + 1) (Nat.lt_succ_self _) v
+    getValue fn M₁ v = .ok q ↔ getValue fn M₂ v = .ok q := by
+  have g1 := getValueFuel_good fn W₁ (M₁.st.live.length + 1) (Nat.lt_succ_self _) v
+  have g2 := getValueFuel_good fn W₂ (M₂.st.live.length + 1) (Nat.lt_succ_self _) v
   unfold getValue
   constructor
   · intro hq
     rw [hq] at g1
     have hd := (den_sameSet W₁ W₂ h _ _).mp g1
-    rcases hr : getValueFuel M₂ (M₂.st.live.length + 1) v with err | q'
+    rcases hr : getValueFuel fn M₂ (M₂.st.live.length + 1) v with err | q'
     · rw [hr] at g2; exact absurd hd (g2.2 q)
     · rw [hr] at g2; rw [den_unique g2 hd]
   · intro hq
     rw [hq] at g2
     have hd := (den_sameSet W₁ W₂ h _ _).mpr g2
-    rcases hr : getValueFuel M₁ (M₁.st.live.length + 1) v with err | q'
+    rcases hr : getValueFuel fn M₁ (M₁.st.live.length + 1) v with err | q'
     · rw [hr] at g1; exact absurd hd (g1.2 q)
     · rw [hr] at g1; rw [den_unique g1 hd]
 
